@@ -477,7 +477,9 @@ Definition replay_insert (s : kstate) (hd : hdr) (r : N) : res kstate :=
   else if existsb (fun x => let '(h', _, e) := x in
                             (h' =? hd_height hd) && existsb (fun p => bytes_eqb (hd_hash (ph_hdr p)) (hd_hash hd)) (re_phs e))
                   (st_rounds s)
-  then Ok (set_vot s (with_phs (k_vot s) (v_phs (k_vot s) ++ [fake_ph hd r])))
+  then
+    let s1 := log_w (set_rounds s (rs_save_ph (st_rounds s) (fake_ph hd r))) (WPH (fake_ph hd r)) in
+    Ok (set_vot s1 (with_phs (k_vot s1) (v_phs (k_vot s1) ++ [fake_ph hd r])))
   else
     let s1 := log_w (set_replayed s (st_replayed s ++ [hd])) (WReplay hd) in
     Ok (set_vot s1 (with_phs (k_vot s1) (v_phs (k_vot s1) ++ [fake_ph hd r]))).
